@@ -9,6 +9,9 @@ Inductive obs :=
     (* each aggregation job in the scheduler's table with the duty handed to Aggregate when its
        function runs, and what the real Aggregate then asked for and submitted:
        (slot requested, data root requested, aggregator index, selection proof) *)
+| ObsHead (infos : list (N * list sub)) (len : N)
+    (* after a head event: the stored information of every epoch a subscribe of the history named
+       (sorted by epoch, each sorted as in ObsSub), and len(subscriptionInfos) *)
 | ObsPanic.
 
 Record case := {
@@ -50,6 +53,11 @@ Definition out_agrees (m : out) (o : obs) : bool :=
   | OutAtt jobs, ObsAtt jobs' =>
       list_eqb job_eqb (sort_jobs jobs) (map fst jobs') &&
       forallb (fun jo => option_eqb quad_eqb (snd jo) (Some (aggregate_out (fst jo)))) jobs'
+  | OutHead infos, ObsHead infos' len =>
+      let sorted := sort_by fst infos in
+      list_eqb N.eqb (map fst sorted) (map fst infos') &&
+      list_eqb (list_eqb sub_eqb) (map (fun kv => sort_subs (snd kv)) sorted) (map snd infos') &&
+      (N.of_nat (length infos) =? len)
   | _, _ => false
   end.
 
@@ -158,6 +166,19 @@ Definition P_att (pr : params) (kn : known) (prev : list job) (dslot cur : N) (a
               (memb pair_eqb (a_slot a, a_comm a) (map jkey js))) atts
   end.
 
+(* HandleHeadEvent: what the aggregation step will need survives.  The specification's reading of
+   "old": the information of an epoch may go only once the head is two or more epochs later (plain
+   arithmetic on naturals: nothing is old during epochs 0 and 1); a head that is not of the current
+   slot changes nothing.  [P_head]: every epoch with information that is not old in this sense is
+   still held afterwards. *)
+Definition old_epoch (ep hepoch : N) : bool := ep + 1 <? hepoch.
+Definition known_prune (hepoch : N) (kn : known) : known :=
+  filter (fun x => negb (old_epoch (fst x) hepoch)) kn.
+Definition head_effective (hslot cur : N) : bool := hslot =? cur.
+Definition P_head (pr : params) (kn : known) (hslot cur : N) (infos : list (N * list sub)) : bool :=
+  forallb (fun x => implb (negb (head_effective hslot cur && old_epoch (fst x) (hslot / spe pr)))
+                          (memb N.eqb (fst x) (map fst infos))) kn.
+
 Fixpoint spec_ok (pr : params) (kn : known) (prev : list job) (ops : list op) (os : list obs) : bool :=
   match ops, os with
   | [], [] => true
@@ -170,6 +191,10 @@ Fixpoint spec_ok (pr : params) (kn : known) (prev : list job) (ops : list op) (o
   | OAtt dslot cur attest_fail no_acct atts :: ops', ObsAtt jobs :: os' =>
       P_att pr kn prev dslot cur attest_fail no_acct atts jobs &&
       spec_ok pr kn (map fst jobs) ops' os'
+  | OHead hslot cur :: ops', ObsHead infos _ :: os' =>
+      P_head pr kn hslot cur infos &&
+      let kn' := if head_effective hslot cur then known_prune (hslot / spe pr) kn else kn in
+      spec_ok pr kn' prev ops' os'
   | _, _ => false
   end.
 
